@@ -4,7 +4,7 @@ import time
 import z3
 
 from .. import core, models, harness, replayers
-from ..core import SInt, SStr, Explorer
+from ..core import SInt, SStr, Explorer, Atom
 from ..harness import fam, plain, ev
 
 CLASSES = ["0.0.0.0/1", "128.0.0.0/2", "192.0.0.0/3", "224.0.0.0/4"]
@@ -42,9 +42,30 @@ def configs_v6(tier):
     return [dict(prefixes=None, networks=None, B=b) for b in bs]
 
 
+_TEMPLATES = {}
+
+
 def make(cfg, family=4, F=None):
-    """construct the real (instrumented) anonymizer inside a harness"""
-    F = F or fam()
+    """The real anonymizer for a configuration.  Construction has no symbolic input, so for the instrumented family it is
+    executed once per process and configuration (outside any exploration: plain deterministic Python) and every later
+    call returns a copy of that pristine object (own memo) -- identical to constructing it again."""
+    if F is None or F is fam():
+        import copy
+        key = (family, cfg_key(cfg), cfg.get("salt", SALT))
+        t = _TEMPLATES.get(key)
+        if t is None:
+            saved, core.EX = core.EX, None
+            try:
+                t = _TEMPLATES[key] = _construct(cfg, family, fam())
+            finally:
+                core.EX = saved
+        an = copy.copy(t)
+        an.cache = t.cache.clone()
+        return an
+    return _construct(cfg, family, F)
+
+
+def _construct(cfg, family, F):
     if family == 4:
         pf, nets = cfg["prefixes"], cfg["networks"]
         return F.ip.IpAnonymizer(cfg.get("salt", SALT), None if pf is None else list(pf), None if nets is None else list(nets),
@@ -203,3 +224,92 @@ def related(base, m, name, W):
     if W - m - 1 > 0:
         parts.append(z3.BitVec(name, W - m - 1))
     return z3.simplify(z3.Concat(*parts)) if len(parts) > 1 else z3.simplify(parts[0])
+
+
+def mask_spec(x):
+    """independent specification of 'netmask- or wildcard-shaped': ones then zeros, or zeros then ones (32 bit)"""
+    consts = set()
+    for k in range(33):
+        consts.add((1 << k) - 1)
+        consts.add(0xFFFFFFFF ^ ((1 << k) - 1))
+    return z3.Or(*[x == z3.BitVecVal(c, 32) for c in sorted(consts)])
+
+
+def in_networks_spec(x, networks, W=32):
+    import ipaddress
+    conds = []
+    for n in networks or []:
+        net = ipaddress.ip_network(n)
+        L = net.prefixlen
+        if L == 0:
+            conds.append(z3.BoolVal(True))
+        else:
+            conds.append(z3.Extract(W - 1, W - L, x) == z3.BitVecVal(int(net.network_address) >> (W - L), L))
+    return z3.Or(*conds) if conds else z3.BoolVal(False)
+
+
+def inject(an, F, family, xbv):
+    """make `an.make_addr` return the already-parsed symbolic address (instance attribute shadows the classmethod)"""
+    W = width(family)
+    cls = F.ipaddress.IPv4Address if family == 4 else F.ipaddress.IPv6Address
+
+    def make_addr(token):
+        if isinstance(token, str):
+            return type(an).make_addr(token)
+        if not (isinstance(token, SStr) and len(token.cs) == 1 and isinstance(token.cs[0], Atom)):
+            raise core.EngineError("injected make_addr called with unexpected text")
+        return cls(SInt.unsigned(token.cs[0].e))
+    an.make_addr = make_addr
+
+
+def token(family, bv):
+    return SStr([Atom("ipv4" if family == 4 else "ipv6", bv)])
+
+
+def tok_value(t, W):
+    if isinstance(t, str):
+        import ipaddress
+        return z3.BitVecVal(int(ipaddress.ip_address(t)), W)
+    if isinstance(t, SStr) and len(t.cs) == 1 and isinstance(t.cs[0], Atom):
+        return t.cs[0].e
+    raise core.EngineError("_anonymize_match returned something that is not a single rendered address: %r" % (t,))
+
+
+
+def mask_lemma(res):
+    """Lemma (all 2^32 values): the real IpAnonymizer._is_mask(x) <=> the independent 66-constant specification.
+    Discharged by symbolic execution of the real method on an unconstrained 32-bit variable."""
+    x, sx = sym_addr("m", 32)
+    ex = Explorer(deadline=time.time() + 60)
+    bad = []
+
+    def h(ex_):
+        an = make(dict(prefixes=[], networks=None, B=0), 4)
+        r = an._is_mask(sx)
+        if not isinstance(r, bool):
+            raise core.EngineError("_is_mask did not return a bool")
+        res["finals"] += 1
+        m = ex_.model(mask_spec(x) != z3.BoolVal(r))
+        if m is None:
+            res["finals_unsat"] += 1
+        else:
+            bad.append(ev(m, x))
+        return r
+    paths = ex.explore(h)
+    harness.add_stats(res, ex)
+    if {p.result for p in paths if p.exc is None} != {True, False}:
+        bad.append("not both outcomes reachable")
+    return bad
+
+
+
+
+def shards(n, k):
+    """split range(n) into k contiguous [lo, hi) pieces"""
+    k = max(1, min(k, n))
+    out, lo = [], 0
+    for i in range(k):
+        hi = lo + (n - lo) // (k - i)
+        out.append((lo, hi))
+        lo = hi
+    return out
